@@ -166,12 +166,13 @@ def h_oms_bitmap(ctx, shape, R=8):
 
 # ---------------------------------------------------------------------------------------------- H15c partition
 
-def h_partition(ctx, modes=('both', 'both', 'both'), widths=(-8, -4, 4, 8)):
+def h_partition(ctx, modes=('both', 'both', 'both'), widths=(-8, -4, 4, 8), multiband=False):
     """build_oms_list on a generated 3-ROADM network: every line element in exactly one OMS, each OMS runs ROADM to ROADM in
     path order, opposite directions paired (None when there is no opposite line), all maps cover the same range"""
     from gnpy.core.elements import Roadm, Transceiver, Edfa, Fiber, Fused
     from gnpy.topology.spectrum_assignment import build_oms_list
-    eqpt = equipment()
+    from gnpy.core.elements import Multiband_amplifier
+    eqpt = equipment('eqpt_config_multiband.json') if multiband else equipment()
     sites = ['A', 'B', 'C']
     pairs = [('A', 'B'), ('B', 'C'), ('A', 'C')]
     els, cx = [], []
@@ -181,16 +182,24 @@ def h_partition(ctx, modes=('both', 'both', 'both'), widths=(-8, -4, 4, 8)):
         cx += [{'from_node': f'trx {s}', 'to_node': f'roadm {s}'}, {'from_node': f'roadm {s}', 'to_node': f'trx {s}'}]
     for (x, y), mode in zip(pairs, modes):
         dirs = {'both': [(x, y), (y, x)], 'forward_only': [(x, y)], 'backward_only': [(y, x)], 'absent': []}[mode]
-        kind = ctx.choice(f'line {x}-{y} layout', ['amp-fiber-amp', 'fiber-fused-fiber-amp'])
+        kind = ctx.choice(f'line {x}-{y} layout', ['amp-fiber-amp', 'fiber-fused-fiber-amp'] if not multiband else
+                          ['mbamp-fiber-mbamp', 'amp-fiber-amp'])
         for (u, v) in dirs:
-            if kind == 'amp-fiber-amp':
+            if kind == 'mbamp-fiber-mbamp':
+                chain = [('Multiband_amplifier', f'booster {u}{v}'), ('Fiber', f'fiber {u}{v}'), ('Multiband_amplifier', f'preamp {u}{v}')]
+            elif kind == 'amp-fiber-amp':
                 chain = [('Edfa', f'booster {u}{v}'), ('Fiber', f'fiber {u}{v}'), ('Edfa', f'preamp {u}{v}')]
             else:
                 chain = [('Fiber', f'fiber1 {u}{v}'), ('Fused', f'fused {u}{v}'), ('Fiber', f'fiber2 {u}{v}'), ('Edfa', f'preamp {u}{v}')]
             for typ, uid in chain:
                 e = {'uid': uid, 'type': typ}
                 if typ == 'Edfa':
-                    e.update(type_variety='std_medium_gain', operational={'gain_target': 20.0, 'tilt_target': 0, 'out_voa': 0})
+                    e.update(type_variety='std_medium_gain_C' if multiband else 'std_medium_gain',
+                             operational={'gain_target': 20.0, 'tilt_target': 0, 'out_voa': 0})
+                elif typ == 'Multiband_amplifier':
+                    e.update(type_variety='std_medium_gain_multiband', amplifiers=[
+                        {'type_variety': 'std_medium_gain_C', 'operational': {'gain_target': 20.0, 'tilt_target': 0, 'out_voa': 0}},
+                        {'type_variety': 'std_medium_gain_L', 'operational': {'gain_target': 20.0, 'tilt_target': 0, 'out_voa': 0}}])
                 elif typ == 'Fiber':
                     e.update(type_variety='SSMF', params={'length': 50, 'length_units': 'km', 'loss_coef': 0.2, 'con_in': 0,
                                                           'con_out': 0, 'att_in': 0})
@@ -202,8 +211,8 @@ def h_partition(ctx, modes=('both', 'both', 'both'), widths=(-8, -4, 4, 8)):
     # per-line amplifier band: symbolic slot numbers (narrower bands on some lines exercise map alignment)
     a0 = ctx.int('network band n_min', widths[0], widths[1])
     b0 = ctx.int('network band n_max', widths[2], widths[3])
-    narrow = ctx.choice('line with a narrower band', list(range(len(lines) + 1)))
-    for li, (u, v, names) in enumerate(lines):
+    narrow = ctx.choice('line with a narrower band', list(range(len(lines) + 1))) if not multiband else len(lines)
+    for li, (u, v, names) in enumerate([] if multiband else lines):
         a, b = (a0 + 1, b0 - 2) if li == narrow else (a0, b0)
         for uid in names:
             el = by[uid]
@@ -228,7 +237,8 @@ def h_partition(ctx, modes=('both', 'both', 'both'), widths=(-8, -4, 4, 8)):
                   info=dict(ids=ids))
         for e in o.el_list[1:-1]:
             seen[e.uid] = seen.get(e.uid, 0) + 1
-            ctx.prove('line element points to its OMS', e.oms is o and e.oms_id == o.oms_id)
+            ctx.prove('line element points to its OMS', getattr(e, 'oms', None) is o and getattr(e, 'oms_id', None) == o.oms_id,
+                      info=dict(element=e.uid, kind=type(e).__name__))
     line_elements = [uid for (_, _, names) in lines for uid in names[1:-1]]
     ctx.prove('every line element in exactly one OMS', sorted(seen) == sorted(line_elements) and all(c == 1 for c in seen.values()))
     for o in oms_list:
@@ -329,4 +339,7 @@ def jobs(tier):
         js.append(dict(name=f'H15c:partition:AB={modes[0]},BC={modes[1]},AC={modes[2]}', fn='h_partition',
                        params=dict(modes=modes, widths=(-6, -5, 5, 6) if tier == 'quick' else (-8, -4, 4, 8)), witness_every=10,
                        budget_s=150 if tier == 'quick' else 600, cost=50))
+    for modes in (('both', 'both', 'both'), ('both', 'forward_only', 'absent')):
+        js.append(dict(name=f'H15c:partition:multiband_amplifiers:AB={modes[0]},BC={modes[1]},AC={modes[2]}', fn='h_partition',
+                       params=dict(modes=modes, widths=(-6, -6, 6, 6), multiband=True), witness_every=4, budget_s=150, cost=50))
     return js
